@@ -12,6 +12,8 @@ ASSUMPTIONS = [
     'key kinds int / str / bool / date / hash-colliding ints (-1 vs -2, 0 vs 2^61-1, ...) are renderings of the class numbers; left and right key columns of differing inferred kind are outside the property '
     '(serif refuses them)',
     'PYTHONHASHSEED is swept over {0,1,2} for str keys (a configuration sweep, not a symbolic quantification)',
+    'keys are given by name, by the table\'s own column, by an external unnamed vector, by an external vector named like ANOTHER column of its table (extnamed), or mixed; '
+    'self-joins (same table object on both sides) at 3 rows; expect= variants only on inputs where the expectation holds (C11 decides the raising side)',
 ]
 
 
